@@ -99,12 +99,14 @@ mut("C19-reads-over-all-records", ST, "        if not (mapping.is_primary) or (m
 mut("C19-identity-from-last", ST, "            if reads[mapping.query_name].highest_seq_identity < seq_identity:", "            if True:", ["C19"])
 P = "gaftools/cli/phase.py"
 mut("C19-tp-test-never-matches", A, 'if pattern == "tp:A:" and val not in ("P", "p"):', 'if pattern == "tp:A" and val not in ("P", "p"):', ["C19"])
+mut("C07-tag-name-two-letters-only", "gaftools/utils.py", 'tag_regex = r"^[A-Za-z][A-Za-z0-9][:][AifZHB][:][ !-~]*$"', 'tag_regex = r"^[A-Za-z][A-Za-z][:][AifZHB][:][ !-~]*$"', ["C07"])
+mut("C14-revcomp-upper-case-only", "gaftools/utils.py", 'complement = str.maketrans("ACGTacgt", "TGCAtgca")', 'complement = str.maketrans("ACGT", "TGCA")', ["C14"])
 mut("C20-ps-ht-swapped", P, '                "\\tps:Z:%s-%s\\tht:Z:%s"', '                "\\tht:Z:%s-%s\\tps:Z:%s"', ["C20"])
 mut("C20-first-record-only-tags", P, "        for k in gaf_line.tags.keys():", "        for k in (gaf_line.tags.keys() if line_count == 1 else []):", ["C20"])
 
 # ---- every repair reverted must be reported again --------------------------------------------------
 for commit, props in [("23642dd", ["C03"]), ("b1211b3", ["C04"]), ("48464d7", ["C05"]), ("ba66df1", ["C08"]), ("e0e670e", ["C10"]),
-                      ("05d0a16", ["C06"]), ("3fdf3c7", ["C06"]), ("02ad794", ["C18"]), ("29612b7", ["C07"]), ("f21d9c2", ["C07"]),
+                      ("05d0a16", ["C06"]), ("3fdf3c7", ["C06"]), ("02ad794", ["C18"]), ("29612b7", ["C07"]),
                       ("d109679", ["C16"]), ("f7ef67e", ["C13"]), ("10c0c3c", ["C11"]), ("e6aeb83", ["C20"])]:
     revert(f"revert-fix-{commit}", commit, props)
 
